@@ -1074,7 +1074,7 @@ fn exec_sys_function(song: &mut Song, t: &Token) -> bool {
             let min = args[0].to_i();
             let max = args[1].to_i();
             let range = max.saturating_sub(min).saturating_add(1);
-            let rnd = if range == 0 { min } else { (song.rand() & 0x7FFFFFFF) as isize % range + min };
+            let rnd = if range == 0 { min } else { ((song.rand() & 0x7FFFFFFF) as isize % range).saturating_add(min) };
             song.stack.push(SValue::from_i(rnd));
         } else if arg_count == 1 {
             let m = args[0].to_i();
